@@ -25,7 +25,7 @@ func init() {
 			"(f) reset_relays empties the inherited relays before they are merged, a disabled proposer-relay is not kept, unknown addresses are generated through the tier chain, unmentioned inherited relays are kept; " +
 			"(g) the version dispatch has arms for the unversioned and version-2 documents and an error default; (h) the top-level fee recipient and gas limit fall back to Vouch's own values when absent; " +
 			"(i) for every JSON shadow struct the fields written by MarshalJSON are the fields read by UnmarshalJSON and unit scalings are inverse pairs (Milliseconds()/x time.Millisecond, Div(weiPerETH)/Mul(weiPerETH)). " +
-			"Added with the third seeding round: (k) a legacy builder's relay list is read only under its own Enabled flag; (l) a resolver that remembers results keys them by every parameter it uses; (b) also accepts a first-present helper called with the tiers in precedence order. Added with the fourth seeding round: (m) the proposers list keeps document order; (n) tiers are written least specific first onto a relay object. Added with the fifth seeding round: (f, extended) every relay inherited from the fallback is recorded in the result; (o) nothing is copied or stored through a pointer-typed field of a relay result. NOT decided: the value-level lattice for arbitrary documents, regexp semantics, round-trip equality of meaning.",
+			"Added with the third seeding round: (k) a legacy builder's relay list is read only under its own Enabled flag; (l) a resolver that remembers results keys them by every parameter it uses; (b) also accepts a first-present helper called with the tiers in precedence order. Added with the fourth seeding round: (m) the proposers list keeps document order; (n) tiers are written least specific first onto a relay object. Added with the fifth seeding round: (f, extended) every relay inherited from the fallback is recorded in the result; (o) nothing is copied or stored through a pointer-typed field of a relay result. Added with the sixth seeding round and the false-alarm regression: (p) numbers in the configuration documents are parsed with base 10; (q) every return of the account-naming helper is the joined wallet/account form; (g) also recognises a dispatch table keyed by version. NOT decided: the value-level lattice for arbitrary documents, regexp semantics, round-trip equality of meaning.",
 		Technique: "guard/edge-deletion queries keyed by access path (tested-X-used-X, tier precedence), string-shape analysis, writer/reader field-table agreement of sibling marshalers, loop-exit path queries",
 		Rule:      "one obligation per dereference (a), per tiered store (b), per options call (c), per match site (d), per compiled specifier (e), per relay-set operation (f), per version arm (g), per fallback use (h), per marshaler pair (i)",
 	})
@@ -883,6 +883,40 @@ func runC10(p *core.Prog, r *core.Report, tier string) {
 	}
 	if nPtrW == 0 {
 		r.Hold("C10.o", "pointer-fields-assigned-not-written-through", "", "no store or copy goes through a pointer-typed field of a relay result")
+	}
+
+	// ---- (p) numbers in the configuration documents are decimal: ParseUint/ParseInt with base 10 (base 0 reads a
+	// zero-padded value as octal and accepts 0x…/underscores) ----
+	nParse := 0
+	for _, f := range p.FuncsIn(append([]string{"services/blockrelay"}, cfgRels...)...) {
+		for _, ci := range core.Calls(f, func(c *ssa.CallCommon) bool {
+			n := core.CalleeName(c)
+			return n == "strconv.ParseUint" || n == "strconv.ParseInt"
+		}) {
+			nParse++
+			b := ci.Common().Args[1]
+			r.Check(core.IsIntConst(b, 10), "C10.p", fmt.Sprintf("%s|decimal#%d", core.FnKey(f), nParse), p.Pos(ci.Pos()), "the value is parsed as a decimal number", "the value is parsed with base "+ds.D(b).String()+": a zero-padded decimal is read as octal and other notations are accepted, so the configured gas limit is not the one applied")
+		}
+	}
+	r.Floor("C10.p integer parses in the configuration documents", nParse, 2)
+
+	// ---- (q) the name an account entry is matched against is always "<wallet>/<account>": every return of the naming
+	// helper is the joined form (or the fixed unknown name), never the bare account name ----
+	if f := p.Func("services/blockrelay/v2", "", "setAccountName"); f != nil {
+		for i, ret := range core.ReturnsOf(f) {
+			if len(ret.Results) != 1 {
+				continue
+			}
+			for _, lf := range core.PhiLeaves(ret.Results[0], ret) {
+				okName := false
+				if cs, isC := constString(lf.V); isC {
+					okName = strings.Contains(cs, "/")
+				} else if fs, isS := sprintfExpanded(lf.V); isS {
+					okName = strings.Contains(fs, "/%s") || strings.Contains(fs, "%s/")
+				}
+				r.Check(okName, "C10.q", fmt.Sprintf("%s|return#%d|joined-name", core.FnKey(f), i+1), p.Pos(ret.Pos()), "the name is wallet/account", "the name handed to the matcher is "+ds.D(lf.V).String()+", not the joined wallet/account form: an account whose own name contains a slash is matched against entries meant for another wallet")
+			}
+		}
 	}
 
 	// ---- (g) version dispatch ----
